@@ -139,6 +139,13 @@ fn alpha_medium(cfg: &Cfg) -> Vec<Op> {
     for (a, b) in [(2u32, 4u32), (3, 4), (3, 5), (4, 5), (2, 256)] {
         v.push(c(Decstbm(Some(a), Some(b))));
     }
+    // tab movement over edited and reset stop lists (the edits themselves belong to C18)
+    for col in [9u32, 17, 25] {
+        v.push(c(Cha(Some(col))));
+    }
+    v.push(c(Hts));
+    v.push(c(Tbc(None)));
+    v.push(c(Ris));
     v
 }
 
@@ -147,8 +154,8 @@ fn medium_part(tier: Tier) -> Part<'static, LockStep> {
         name: "moves-lockstep-medium-screen",
         sys: &SYS_MED,
         cfgs: match tier {
-            Tier::Quick => cfgs(&[(7, 5)], &[None]),
-            Tier::Thorough => cfgs(&[(7, 5), (6, 6), (17, 5)], &[None]),
+            Tier::Quick => cfgs(&[(7, 5), (26, 2)], &[None]),
+            Tier::Thorough => cfgs(&[(7, 5), (6, 6), (17, 5), (26, 2), (33, 3)], &[None]),
         },
         alphabet: &alpha_medium,
         depth: tier.pick(3, 4),
